@@ -14,11 +14,15 @@
   the pair level (`Proofs/PrattInv`: pest's Pratt algorithm inverts the printer's
   parenthesisation, for all operator nestings, unary minus on numerals vs negative numerals,
   intervals on either side).
+  `accepted_text_roundtrip` states it for every accepted text: the tree of an accepted text always
+  has names of the grammar's lexical shape (`parseProgram_shaped`), so the only hypothesis is that
+  no name is `not`.
   Known finding (the excluded case): a symbol or predicate named `not` (accepted when no white
   space follows it) is printed with a following space and then rejected.
 -/
 import AnthemModel.Model.Print
 import AnthemModel.Proofs.AspProgramRT
+import AnthemModel.Proofs.AspImage
 namespace Anthem.C14
 open Asp
 
@@ -33,11 +37,14 @@ theorem print_parse_print (p : Program) (h : p.WF) :
     (parseProgram (printProgram p)).map printProgram = some (printProgram p) := by
   rw [roundtrip p h]; rfl
 
-/-- The same for a tree in the image of the parser: if `text` is accepted with tree `p` and `p` is
-    well-formed, then the printed text of `p` is accepted, parses to `p`, and prints to itself. -/
-theorem accepted_text_roundtrip (text : String) (p : Program) (_hp : parseProgram text = some p) (h : p.WF) :
+/-- **The property, for every accepted text.** If `text` is accepted with tree `p` and no symbolic
+    constant or predicate symbol of `p` is `not`, then the printed text of `p` is accepted, parses to
+    `p`, and prints to itself. (That the tree of an accepted text has names of the grammar's lexical
+    shape is `parseProgram_shaped`; it needs no hypothesis.) -/
+theorem accepted_text_roundtrip (text : String) (p : Program) (hp : parseProgram text = some p) (hn : p.NoNot) :
     parseProgram (printProgram p) = some p ∧
       (parseProgram (printProgram p)).map printProgram = some (printProgram p) :=
+  have h := Program.wf_of p (parseProgram_shaped hp) hn
   ⟨roundtrip p h, print_parse_print p h⟩
 
 /-- the term level on its own: the pair sequence of a printed term is Pratt-parsed back to the term -/
